@@ -98,6 +98,38 @@ def expected_pages(source_dir: str, exclude: list[str], read=None, listdir=None,
     return out
 
 
+def documented_members(source_text: str) -> tuple[list[str], list[str]]:
+    """(public variables that have a docstring, public functions that have a docstring), in source
+    order -- an independent reading of the source, not the generator's."""
+    try:
+        tree = ast.parse(source_text)
+    except SyntaxError:
+        return [], []
+    data, funcs = [], []
+    body = tree.body
+    for i, node in enumerate(body):
+        if isinstance(node, ast.FunctionDef):
+            if ast.get_docstring(node) is not None and not node.name.startswith("_"):
+                funcs.append(node.name)
+        elif isinstance(node, ast.Assign) and len(node.targets) >= 1 and isinstance(node.targets[0], ast.Name):
+            nxt = body[i + 1] if i + 1 < len(body) else None
+            if isinstance(nxt, ast.Expr) and isinstance(nxt.value, ast.Constant) and isinstance(nxt.value.value, str):
+                name = node.targets[0].id
+                if not name.startswith("_") and name not in data:
+                    data.append(name)
+    return data, funcs
+
+
+def check_sections(page_name: str, text: str, source_text: str, vios: list, prefix: str = "") -> None:
+    data, funcs = documented_members(source_text)
+    got_funcs = re.findall(r"(?m)^\.\. py:function:: (\w+)\(", text)
+    got_data = re.findall(r"(?m)^\.\. py:data:: (\w+)$", text)
+    if got_funcs != funcs:
+        vios.append(V("faithful", f"{prefix}functions-section" + ("" if prefix else f"|{page_name}"), f"page {page_name} documents functions {got_funcs}, the source documents {funcs}").v)
+    if got_data != data:
+        vios.append(V("faithful", f"{prefix}data-section" + ("" if prefix else f"|{page_name}"), f"page {page_name} documents members {got_data}, the source documents {data}").v)
+
+
 _MATH_BLOCK = re.compile(r"(\.\. math::\n)((?:[ \t]+\S.*\n|\n)+)")
 _CODE_LINE = re.compile(r"^([ \t]*):code:`.*`[ \t]*$", re.M)
 
@@ -545,6 +577,12 @@ def _run_generation(fs, op, vios, faults_count, probes) -> dict:
         pick = [names[(i * 7919 + int(op.get("perm", 0))) % len(names)] for i in range(min(k, len(names)))] if names else []
         n_sym = sum(_check_symbol_tables(n, pages[n], vios) for n in sorted(set(pick)))
         n_formula = _members_meaning(captured, vios, {"symplyphysics." + n[:-4] for n in pick})
+        for n_, text_ in sorted(pages.items()):
+            stem = os.path.join("symplyphysics" if src.startswith("symplyphysics") else "", n_[:-4].replace(".", "/"))
+            for cand in (stem + ".py", os.path.join(stem, "__init__.py")):
+                if os.path.isfile(cand):
+                    check_sections(n_, text_, open(cand, encoding="utf-8").read(), vios)
+                    break
         n_render = _members_rendered(captured, pages, vios, None)
         info["renderings_checked"] = n_render
         probes["placeholder rendering located inside its own member block"] = int(n_render > 0)
@@ -566,6 +604,20 @@ def _run_generation(fs, op, vios, faults_count, probes) -> dict:
         probes["evaluation flag left off by an aborted generation (probe only)"] = int(not info["flag_after_abort"])
     info["pages"] = pages
     return info
+
+
+_N_SYM_PRE = re.compile(r":symbols:`(\w*)`")
+_N_SYM_POST = re.compile(r":attr:`~symplyphysics\.symbols\.\w+\.(\w+)`")
+_N_QTY_PRE = re.compile(r":quantity_notation:`(\w*)`")
+_N_QTY_POST = re.compile(r":math:`[^`]*` \(:code:`[^`]*`\) is :attr:`~symplyphysics\.quantities\.(\w+)`")
+
+
+def role_normal_form(text: str) -> str:
+    """A page with both spellings of a cross-reference (the role before post-processing, the
+    resolved link after it) replaced by one token: post-processing must change nothing else."""
+    for rx, tok in ((_N_QTY_POST, "QN"), (_N_QTY_PRE, "QN"), (_N_SYM_POST, "SY"), (_N_SYM_PRE, "SY")):
+        text = rx.sub(lambda m, tok=tok: f"<{tok}:{m.group(1)}>", text)
+    return text
 
 
 def _run_post(fs, op, vios, faults_count, probes) -> dict:
@@ -592,6 +644,18 @@ def _run_post(fs, op, vios, faults_count, probes) -> dict:
         _check_pages_common(fs, pages, vios, post=True)
         info["crossrefs"] = _check_crossrefs(pages, vios)
         probes["cross-reference targets resolved by getattr"] = int(info["crossrefs"] > 0)
+        changed = 0
+        for pth, old_text in sorted(before.items()):
+            new_text = fs.files.get(pth)
+            if new_text is None or pth.endswith("index.rst"):
+                continue
+            if role_normal_form(old_text) != role_normal_form(new_text):
+                a, b = role_normal_form(old_text), role_normal_form(new_text)
+                k = next((i for i, (x, y) in enumerate(zip(a, b)) if x != y), min(len(a), len(b)))
+                vios.append(V("faithful", f"postprocess-altered-text|{os.path.relpath(pth, OUT) if not pth.startswith(OUT + '/vpkg') else 'virtual'}", f"post-processing changed page {os.path.relpath(pth, OUT)} beyond resolving roles (lengths {len(a)} -> {len(b)}; first difference at {k}: {a[k:k + 40]!r} vs {b[k:k + 40]!r})").v)
+                break
+            changed += old_text != new_text
+        probes["post-processing compared with an independent normal form"] = int(changed > 0)
         lost = sorted(set(before) - set(fs.files))
         if lost:
             vios.append(V("pages", f"lost-in-postprocess|{os.path.relpath(lost[0], OUT)}", f"post-processing lost pages {lost[:3]}").v)
@@ -878,6 +942,11 @@ def _run_virtual(fs, op, vios, faults, probes, aborted):
                 vios.append(V("flag", "after-virtual", f"evaluation flag not default after generating a synthetic tree (first bad page: {(flag_bad_pages or ['end'])[0]}; previous generation aborted: {was_pending})").v)
             n = _virtual_symbol_tables(files, pages, vios)
             probes["synthetic symbol tables compared with an independent exec"] = int(n > 0)
+            for n_, text_ in sorted(pages.items()):
+                base_ = "simsrc/" + n_[:-4].replace(".", "/")
+                src_ = files.get(base_ + ".py", files.get(base_ + "/__init__.py"))
+                if src_ is not None:
+                    check_sections(n_, text_, src_, vios, prefix="virtual-")
             n2 = _virtual_content_oracles(files, pages, vios)
             probes["synthetic docstring / contents / rendering oracles"] = int(n2 > 0)
             if aborted["pending"]:
